@@ -1,4 +1,5 @@
 """C18 - describing a query does not change its answer and reports exactly the facts used."""
+import re
 from .. import facts as F
 from .. import flow
 from ..callgraph import CallGraph
@@ -50,9 +51,11 @@ def r1_r2(facts, rep):
     # the evaluator, or the constructor of the query (which may turn the flag into "is there a sink at all") and its helpers
     cgq = CallGraph(facts)
     ctor_own = cgq.exclusive("query::query") if "query::query" in cgq.local else set()
+    # ... or a function only the evaluator uses (a `describe_constant` helper next to the query type)
+    ev_own1 = cgq.exclusive("eval::eval") if "eval::eval" in cgq.local else set()
     for b, blk, s in reads:
         top = b.path.split("::{closure")[0]
-        rep.ob("C18-R1", "read-in:%s" % top, (b.path.startswith("eval::") and not b.path.startswith("eval::builtin")) or top in ctor_own,
+        rep.ob("C18-R1", "read-in:%s" % top, (b.path.startswith("eval::") and not b.path.startswith("eval::builtin")) or top in ctor_own or top in ev_own1,
                "Options.describe is read in %s" % b.path, b.site(s["span"]))
     rep.floor("C18-R1", "reads of Options.describe", len(reads), 1)
     if anchor(rep, "C18-R2", facts, "eval::eval") is None:
@@ -168,13 +171,18 @@ def r3_writers(facts, rep):
             ty0 = ty0.replace("& mut", "&mut")
             # by type: the receiver is a mutable reference to a vector or slice of descriptions (sort_by through DerefMut,
             # iter_mut, last_mut ...), or a Vec / slice / Extend method instantiated at Description
-            mut_recv = ty0.startswith("&mut") and "query::Description" in ty0 and ("Vec<" in ty0 or "[" in ty0)
+            core_ty = re.sub(r"'[a-z_{}]+ ", "", ty0[4:].strip()) if ty0.startswith("&mut") else ""
+            mut_recv = (core_ty.startswith("std::vec::Vec<query::Description") or core_ty.startswith("[query::Description")
+                        or core_ty.startswith("&mut std::vec::Vec<query::Description") or core_ty.startswith("&mut [query::Description"))
             on_vec = (name.startswith("std::vec::Vec::<") or name.startswith("core::slice::<impl [T]>::") or
                       name.startswith("std::slice::<impl [T]>::") or "Extend" in name) and "query::Description" in g
             if not (on_vec or mut_recv):
                 continue
             m = "::" + name.rsplit("::", 1)[-1]
             if (m in READERS or m.startswith("::iter")) and not m.startswith("::iter_mut"):
+                continue
+            if m in ("::deref_mut", "::as_mut_slice", "::as_mut", "::borrow_mut"):
+                # only hands out the slice: what is done with it is looked at where it is done (by the receiver's type)
                 continue
             # does it take the vector mutably?
             if not mut_recv and m not in ("::push", "::clear", "::pop", "::insert", "::remove", "::truncate", "::extend", "::drain", "::retain", "::swap_remove", "::append", "::sort", "::reverse", "::dedup"):
